@@ -24,6 +24,7 @@ import json
 import random
 
 from vlib import ToolError
+from checks.relayproto_common import binding_selftest
 
 META = {
     "level": "model_checking",
@@ -147,24 +148,36 @@ def execute(ctx, cases):
     for c, o in zip(cases, obs):
         if o.get("build_error"):
             raise ToolError("could not build the request for %s: %s" % (c["abstract"], o["build_error"]))
-        a = c["abstract"]
-        ctx.count(case_key=[a, c["headers"], c["uri"]], nontrivial=bool(a["headers"] or a["present"]))
-        if len(a["headers"]) >= 2 and a["params"] and c["classes"]["has_binary"] == "yes":
-            ctx.sample({"authorization_headers": [bytes.fromhex(h).decode("latin-1") for h in c["headers"]], "uri": c["uri"],
-                        "expected": c["allowed"], "got": [o["some"], o["token"]]})
-        if o.get("panic"):
-            ctx.report(dict(c["classes"], kind="panic"), "auth_token panicked: %s" % o["panic"], c)
-            continue
-        got = [o["some"], o["token"]]
-        if got in c["allowed"]:
-            continue
-        exp = c["allowed"][0]
-        if exp[0] and not got[0]:
-            kind = "expected_some_got_none"
-        elif got[0] and not exp[0]:
-            kind = "expected_none_got_some"
-        else:
-            kind = "wrong_token"
-        ctx.report(dict(c["classes"], kind=kind),
-                   "auth_token for headers %s uri %s: the table allows %s, got %s"
-                   % ([bytes.fromhex(h) for h in c["headers"]], c["uri"], c["allowed"], got), c)
+        judge(ctx, c, o)
+    for c, o in zip(cases, obs):
+        if len(c["abstract"]["headers"]) >= 2 and o["some"] and not o.get("panic"):
+            binding_selftest(ctx, judge, c, o, [
+                ("token value", lambda c_, o_: o_.__setitem__("token", o_["token"] + "x")),
+                ("none instead of some", lambda c_, o_: o_.__setitem__("some", False) or o_.__setitem__("token", "")),
+                ("expectation flipped", lambda c_, o_: c_.__setitem__("allowed", [[False, ""]])),
+                ("panic", lambda c_, o_: o_.__setitem__("panic", "boom"))])
+            break
+
+
+def judge(ctx, c, o):
+    a = c["abstract"]
+    ctx.count(case_key=[a, c["headers"], c["uri"]], nontrivial=bool(a["headers"] or a["present"]))
+    if len(a["headers"]) >= 2 and a["params"] and c["classes"]["has_binary"] == "yes":
+        ctx.sample({"authorization_headers": [bytes.fromhex(h).decode("latin-1") for h in c["headers"]], "uri": c["uri"],
+                    "expected": c["allowed"], "got": [o["some"], o["token"]]})
+    if o.get("panic"):
+        ctx.report(dict(c["classes"], kind="panic"), "auth_token panicked: %s" % o["panic"], c)
+        return
+    got = [o["some"], o["token"]]
+    if got in c["allowed"]:
+        return
+    exp = c["allowed"][0]
+    if exp[0] and not got[0]:
+        kind = "expected_some_got_none"
+    elif got[0] and not exp[0]:
+        kind = "expected_none_got_some"
+    else:
+        kind = "wrong_token"
+    ctx.report(dict(c["classes"], kind=kind),
+               "auth_token for headers %s uri %s: the table allows %s, got %s"
+               % ([bytes.fromhex(h) for h in c["headers"]], c["uri"], c["allowed"], got), c)
